@@ -183,6 +183,8 @@ def panics(R, ctx, sites):
             continue
         key = f"{root_fn(b.path)}|{n}|unwrap"
         tri = next(((cls, why) for (fr, cr, cls, why) in PANIC_TRIAGE if re.search(fr, root_fn(b.path)) and re.search(cr, n)), None)
+        if tri is None and re.search(r'^std::result::Result<.*std::sync::PoisonError<', b.blocks[bb]['term'].get('dest_ty') or ''):
+            tri = ('POI', "the error type of the unwrapped Result is PoisonError (a lock result passed through a private accessor): poison only")
         if tri and 'restart-sibling-guard' in tri[1] and not c10.restart_sibling_guard(ctx):
             tri = None          # the invariant that excluded the failure is gone
         if tri:
